@@ -820,7 +820,10 @@ class Engine:
                 p.effects.append(("await", self.ev(s.value.value, p, fr), s.lineno, p.store.get(("epoch",), 0)))
                 self.havoc_fields(p)
                 return [p]
-            self.ev(s.value, p, fr)
+            v_ = self.ev(s.value, p, fr)
+            if getattr(self, "record_eval", False):
+                # a bare expression statement (e.g. a property read for its side effect / its exception): remembered for rules that ask whether it was evaluated
+                p.effects.append(("eval", v_, s.lineno))
             return [p]
         if isinstance(s, ast.Assign):
             if isinstance(s.value, ast.Call):
